@@ -195,7 +195,11 @@ class MCLevyCopulaSimulation:
                     adj_matrix[i, j] = adj_matrix[j, i] = next(outputs)
 
         variance_matrix = np.dot(adj_matrix, adj_matrix.T) + model_variance
-        diffusion_matrix = scipy.linalg.sqrtm(variance_matrix)
+        # symmetric square root of a symmetric positive semi-definite matrix through its eigen-decomposition:
+        # scipy.linalg.sqrtm returns infinite entries for a singular matrix with several zero eigenvalues
+        # (e.g. three pure-jump margins of finite variation)
+        eigenvalues, eigenvectors = np.linalg.eigh(variance_matrix)
+        diffusion_matrix = (eigenvectors * np.sqrt(np.maximum(eigenvalues, 0.0))) @ eigenvectors.T
         self.diffusion_matrix = diffusion_matrix
 
     def simulate_markov_chain(self) -> MarkovChain:
